@@ -20,6 +20,7 @@ THEOREMS = [
     "idKey_injective", "keyFor_state_mono", "state_inv_init",
     "map_refines", "map_refines_from", "map_refines_nil",
     "range_visits_increasing", "range_visits_nodup", "range_skips_deleted", "range_visit_live", "range_spec", "range_readonly",
+    "range_forms_same_walk", "range_spec_forms", "range_forms_skip_deleted", "seeded_unbound_counterexample",
 ]
 
 INT_KINDS = {
@@ -570,7 +571,86 @@ func case%(n)d() {
 		return "R " + itoa(need) + " " + itoa(once) + " " + itoa(viol)
 	}
 	_, _, _ = set, rng, find
-%(steps)s}
+%(rngc)s%(steps)s}
+'''
+
+
+RANGE_FORMS = {
+    "kv": ("for k, v := range m", "_, _ = k, v"),
+    "k": ("for k := range m", "_ = k"),
+    "v": ("for _, v := range m", "_ = v"),
+    "bk": ("for _ = range m", ""),
+    "bb": ("for _, _ = range m", ""),
+    "none": ("for range m", ""),
+}
+
+GO_RNGC = r'''
+	rngc_%(form)s := func(del, ins []int, w int) string {
+		n := len(keys)
+		rep := make([]int, n)
+		for i := range keys {
+			rep[i] = find(keys[i])
+		}
+		n0 := len(m)
+		mark := make([]bool, n)
+		nd := 0
+		for _, d := range del {
+			r := rep[d]
+			if r >= 0 && !mark[r] {
+				mark[r] = true
+				if _, ok := m[keys[r]]; ok {
+					nd++
+				}
+			}
+		}
+		mark2 := make([]bool, n)
+		ni := 0
+		for _, i := range ins {
+			r := rep[i]
+			if r < 0 {
+				ni++
+			} else if !mark2[r] {
+				mark2[r] = true
+				if _, ok := m[keys[r]]; !ok {
+					ni++
+				}
+			}
+		}
+		cnt := 0
+		%(header)s {
+			%(use)s
+			if cnt == 0 {
+				for _, d := range del {
+					delete(m, keys[d])
+				}
+				for _, i := range ins {
+					m[keys[i]] = w
+				}
+			}
+			cnt++
+		}
+		lo, hi := 0, 0
+		if n0 > 0 {
+			rem := n0 - nd
+			lo = rem
+			if lo < 1 {
+				lo = 1
+			}
+			hi = rem + ni
+			if nd >= 1 {
+				hi++
+			}
+		}
+		ok := "0"
+		if lo <= cnt && cnt <= hi {
+			ok = "1"
+		}
+		ex := "-"
+		if lo == hi {
+			ex = itoa(cnt)
+		}
+		return "C " + itoa(lo) + " " + itoa(hi) + " " + ok + " " + ex
+	}
 '''
 
 
@@ -764,6 +844,23 @@ def gen_case(rng, pw, n, feat, tier):
             dels = [j for j in range(len(univ)) if cls[j] in dcl and rng.random() < 0.8]
             inss = [j for j in range(len(univ)) if cls[j] in icl and rng.random() < 0.8]
             steps.append(("rng", rng.randrange(0, 4), dels, inss, rng.randrange(50, 60)))
+        elif r < 0.9 and rng.random() < 0.7:
+            # a range of one of the six binding forms whose body, in its first run, deletes entries it has not reached yet
+            # (a whole set of keys: no key need be bound) and inserts others; observable = number of runs of the body
+            classes = sorted(set(cls))
+            rng.shuffle(classes)
+            if rng.random() < 0.6:
+                idx = list(range(len(univ)))
+                rng.shuffle(idx)
+                steps.append(("lit", [(j, rng.randrange(1, 50)) for j in idx[:rng.randrange(2, 9)]]))
+            if rng.random() < 0.5:
+                dcl, icl = set(classes), set()
+            else:
+                cut = rng.randrange(1, len(classes) + 1)
+                dcl, icl = set(classes[:cut]), set(classes[cut:][:rng.randrange(0, 3)])
+            dels = [j for j in range(len(univ)) if cls[j] in dcl]
+            inss = [j for j in range(len(univ)) if cls[j] in icl and rng.random() < 0.8]
+            steps.append(("rngc", rng.choice(sorted(RANGE_FORMS)), dels, inss, rng.randrange(60, 70)))
         elif r < 0.9:
             steps.append(("lit", [(rng.randrange(len(univ)), rng.randrange(1, 50)) for _ in range(rng.randrange(0, 6))]))
         elif r < 0.93:
@@ -799,6 +896,7 @@ def case_ops(pw, case):
         elif k in ("make", "nil", "unh"): ops.append("gomap op " + k)
         elif k == "lit": ops.append("gomap op lit %s" % (",".join("%d=%d" % p for p in st[1]) or "-"))
         elif k == "rng": ops.append("gomap op rng %d %s %s %d" % (st[1], lst(st[2]), lst(st[3]), st[4]))
+        elif k == "rngc": ops.append("gomap op rngc %s %s %s %d" % (st[1], lst(st[2]), lst(st[3]), st[4]))
     return ops, nsetup
 
 
@@ -819,11 +917,16 @@ def case_go(pw, case):
         elif k == "unh":
             lines.append("\t{\n\t\tu := func() (p string) {\n\t\t\tdefer func() {\n\t\t\t\tif recover() != nil {\n\t\t\t\t\tp = \"U1\"\n\t\t\t\t}\n\t\t\t}()\n"
                          "\t\t\tvar bad interface{} = []int{1}\n\t\t\tm[bad] = 1\n\t\t\treturn \"U0\"\n\t\t}()\n\t" + pre + "u + \" \" + dig())\n\t}")
+        elif k == "rngc":
+            lines.append(pre + "rngc_%s([]int{%s}, []int{%s}, %d) + \" \" + dig())" % (
+                st[1], ", ".join(map(str, st[2])), ", ".join(map(str, st[3])), st[4]))
         elif k == "rng":
             lines.append(pre + "rng(%d, []int{%s}, []int{%s}, %d) + \" \" + dig())" % (
                 st[1], ", ".join(map(str, st[2])), ", ".join(map(str, st[3])), st[4]))
     keys = ", ".join(pw.goval(t, v) for v in case["univ"])
-    body = GO_CASE % {"n": n, "keys": keys, "steps": "\n".join(lines) + "\n"}
+    forms = sorted(set(st[1] for st in case["steps"] if st[0] == "rngc"))
+    rngc = "".join(GO_RNGC % {"form": f, "header": RANGE_FORMS[f][0], "use": RANGE_FORMS[f][1]} for f in forms)
+    body = GO_CASE % {"n": n, "keys": keys, "steps": "\n".join(lines) + "\n", "rngc": rngc}
     return "type K%d = %s\n" % (n, pw.gotype(t)) + body
 
 
@@ -908,8 +1011,43 @@ def run_blank_witness(chk):
         chk.add_mismatch("programs", "c15blank (struct key with a blank field set by a positional literal)", js[0], nat[0], signature=sig)
 
 
+SKELETON_SRC = "package main\n\n" + "".join(
+    "func f_%s(m map[string]int) int {\n\tn := 0\n\t%s {\n\t\t%s\n\t\tn++\n\t\tdelete(m, \"a\")\n\t\tdelete(m, \"b\")\n\t\tdelete(m, \"c\")\n\t}\n\treturn n\n}\n\n" % (f, h, u)
+    for f, (h, u) in sorted(RANGE_FORMS.items())) + (
+    "func main() {\n" + "".join("\tprintln(\"%s\", f_%s(map[string]int{\"a\": 1, \"b\": 2, \"c\": 3}))\n" % (f, f) for f in sorted(RANGE_FORMS)) + "}\n")
+
+SKELETON_PARTS = [("_keys", r"_keys\w* = \w+ \? \w+\.keys\(\) : undefined"), ("_size", r"_size\w* = \w+ \? \w+\.size : 0"),
+                  ("next", r"_key\w* = _keys\w*\.next\(\)\.value"), ("get", r"_entry\w* = \w+\.get\(_key\w*\)"),
+                  ("recheck", r"if \(_entry\w* === undefined\)"), ("bound", r"_i\w* < _size")]
+
+
+def run_range_skeleton(chk):
+    """Structural tie: the loop skeleton emitted for `range <map>` (statements.go:211-236) must contain the key walk, the
+    _size snapshot and the `get` re-check for EVERY binding form — that is what GV.Model.GoMap.rangeForm assumes."""
+    import re
+    res = progs.run_jobs([{"id": "c15skel", "files": {"main.go": SKELETON_SRC}, "variants": ["plain"], "native": True, "keep_js": True,
+                           "timeout": 600}])[0]
+    js = res["runs"]["plain"].get("js", "")
+    nat = progs.observe_native(res["runs"]["native"])
+    out = progs.observe_js(res["runs"]["plain"])
+    if nat[1] != "exit0" or not js:
+        raise RuntimeError("range skeleton program failed: %r %r" % (nat, res["runs"]["plain"].get("err")))
+    for f in sorted(RANGE_FORMS):
+        m = re.search(r"f_%s = function[^(]*\(m\) \{(.*?)\n\t*\};" % f, js, re.S)
+        body = m.group(1) if m else ""
+        have = [name for name, rx in SKELETON_PARTS if re.search(rx, body)]
+        want = [name for name, _ in SKELETON_PARTS]
+        chk.add_case("range-skeleton", "form=" + f, True, "skeleton:" + f)
+        if have != want:
+            chk.add_tie_break("range-skeleton", "range clause form=%s (%s)" % (f, RANGE_FORMS[f][0]), "parts present: %s" % have, "parts expected: %s" % want)
+    chk.extra["range_skeleton_forms"] = sorted(RANGE_FORMS)
+    if out != nat:      # every form: exactly one run of the body (it empties the map)
+        chk.add_mismatch("programs", "c15skel: " + SKELETON_SRC[:0] + "for <form> range m { n++; delete a, b, c } on {a,b,c}", out[0], nat[0])
+
+
 def run_programs(chk, tier):
     run_blank_witness(chk)
+    run_range_skeleton(chk)
     rng = chk.rng
     nprog = 30 if tier == "thorough" else 8
     ncases = 10 if tier == "thorough" else 7
@@ -967,6 +1105,9 @@ def run_programs(chk, tier):
                              sample={"tie": "programs", "op": opid, "impl": impl[:3], "model": model[:3], "spec": spec[:3]})
                 for k in kinds:
                     chk.count("prog-step:" + k)
+                for st in c["steps"]:
+                    if st[0] == "rngc":
+                        chk.count("prog-range-form:" + st[1])
                 if model != spec and c["feat"] is None:
                     # the Lean model and native Go disagree on a case without a recorded defect: either a new
                     # defect of the transcribed code (then impl == model != spec is reported below) or a model bug
